@@ -2,7 +2,9 @@
 import itertools
 from spacepackets.ecss.tm import PusTm, PusTmSecondaryHeader
 from spacepackets.ecss.pus_17_test import Service17Tm
+from spacepackets.ccsds.spacepacket import SpacePacketHeader, PacketType, SequenceFlags
 from harness import pus_common as pc
+from harness.props.c02 import fcrc, _crc2, _enum, _mk_sph, _Owned, _canon, PATTERNS, NEAR_256
 
 ID = "C03"
 ENUMS = [
@@ -17,6 +19,11 @@ ENUMS = [
 ASSUMPTIONS = [
     "crcmod's C implementation is outside the model (tied by C04's exhaustive byte-update comparison and every packed packet here)",
     "the decoder's timestamp_len argument is a non-negative int",
+    "live-object histories (op 620): judged by design, not as defects: assigning tm.pus_tm_sec_header.timestamp (a plain "
+    "attribute of the sub-object) leaves the data length field stale until tm_data is assigned; the telemetry keeps "
+    "references to the caller's bytearrays / header objects; from_composite_fields keeps the caller's data length; "
+    "to_space_packet() omits the secondary header when sec_header_flag was cleared; pack(recalc_crc=False) after a field "
+    "change carries the cached CRC (documented); crc16 between a field change and the next pack is only compared with the model",
 ]
 TRUSTED = []
 ORACLE_LIMIT = {"quick": 6000, "thorough": 40000}
@@ -86,7 +93,149 @@ def impl(op, a):
         sp = t.to_space_packet().pack()
         raw = t.pack()
         return [list(sp), list(raw), [t.packet_len]]
+    if op == 620:
+        return _hist(a)
     raise RuntimeError("bad op")
+
+
+# ---------------------------------------------------------------- extended histories (op 620)
+# a[0] = [path, service, subservice, apid, count, msgcnt, ref, dest, version, bufkind, ptype, shf, flags, dlen]
+# a[1] = timestamp, a[2] = source data, a[3:] = operations
+def _make(p, stamp, src, owned):
+    """returns (PusTm, Service17Tm wrapper or None)"""
+    path, service, subservice, apid, count, msgcnt, ref, dest, version, kind, ptype, shf, flags, dlen = p
+    if path == 0:
+        return PusTm(service=service, subservice=subservice, timestamp=owned.give(stamp, kind), source_data=owned.give(src, kind),
+                     apid=apid, seq_count=count, message_counter=msgcnt, space_time_ref=ref, destination_id=dest,
+                     packet_version=version), None
+    if path == 2:
+        h = _mk_sph(ptype, apid, count, dlen, shf, flags, version)
+        sh = PusTmSecondaryHeader(service, subservice, owned.give(stamp, kind), msgcnt, dest, ref)
+        return PusTm.from_composite_fields(h, sh, owned.give(src, kind)), None
+    if path in (3, 5):
+        raw = PusTm(service=service, subservice=subservice, timestamp=bytes(stamp), source_data=bytes(src), apid=apid,
+                    seq_count=count, message_counter=msgcnt, space_time_ref=ref, destination_id=dest, packet_version=version).pack()
+        buf = bytes(raw) if kind == 0 else bytearray(raw)
+        if path == 3:
+            t, w = PusTm.unpack(buf, len(stamp)), None
+        else:
+            w = Service17Tm.unpack(buf, len(stamp)); t = w.pus_tm
+        if kind != 0:
+            for i in range(len(buf)):
+                buf[i] ^= 0xFF
+            buf.extend(b"\x5a" * 7)
+        return t, w
+    if path == 4:
+        w = Service17Tm(apid=apid, subservice=subservice, timestamp=owned.give(stamp, kind), ssc=count,
+                        source_data=owned.give(src, kind), packet_version=version, space_time_ref=ref, destination_id=dest)
+        return w.pus_tm, w
+    if path == 6:
+        return PusTm(service, subservice, owned.give(stamp, kind)), None
+    if path == 7:
+        return PusTm.empty(), None
+    if path == 8:
+        w = Service17Tm(apid, subservice, owned.give(stamp, kind))
+        return w.pus_tm, w
+    raise RuntimeError("bad path")
+
+
+def _inspect(t, w):
+    g = w if w is not None else t       # the wrapper's getters where there is a wrapper
+    return _fields(t) + [[g.service, g.subservice, g.apid, g.seq_count, g.ccsds_version, int(g.packet_id.raw()),
+                          int(g.packet_seq_control.raw()), int(g.packet_type), int(g.sec_header_flag), int(g.seq_flags)],
+                         list(g.timestamp), list(g.source_data)]
+
+
+_HDR_ENUM = {1: PacketType, 4: SequenceFlags}
+_SEC_ATTR = ("pus_version", "spacecraft_time_ref", "service", "subservice", "message_counter", "dest_id")
+
+
+def _set_hdr(t, w, f, v, route):
+    x = _enum(_HDR_ENUM[f], v) if f in _HDR_ENUM else (bool(v) if f == 2 and v in (0, 1) else v)
+    h = [t.space_packet_header, t.sp_header, w.sp_header if w is not None else t.sp_header][route % 3]
+    r = route // 3
+    if f == 1:
+        if r % 2 == 0: h.packet_type = x
+        else: t.packet_id.ptype = x
+    elif f == 2:
+        if r % 2 == 0: h.sec_header_flag = x
+        else: h.packet_id.sec_header_flag = x
+    elif f == 3:
+        if r % 3 == 0: t.apid = x
+        elif r % 3 == 1: h.apid = x
+        else: h.packet_id.apid = x
+    elif f == 4:
+        if r % 3 == 0: t.seq_flags = x
+        elif r % 3 == 1: h.seq_flags = x
+        else: t.packet_seq_control.seq_flags = x
+    elif f == 5:
+        if r % 2 == 0: h.seq_count = x
+        else: h.packet_seq_control.seq_count = x
+    elif f == 6:
+        h.data_len = x
+    else:
+        raise RuntimeError("no public route to header field %d" % f)
+
+
+def _hist_op(st, o, owned):
+    t, w, k = st["t"], st["w"], o[0]
+    if k == 0: return [list(owned.handed_out(w.pack() if w is not None and len(o) > 1 and o[1] else t.pack()))]
+    if k == 1: return [list(owned.handed_out(t.pack(recalc_crc=False)))]
+    if k == 2: t.calc_crc(); return []
+    if k == 3: t.tm_data = bytes(o[1:]); return []
+    if k == 5: t.apid = o[1]; return []
+    if k == 7:
+        v = t.to_space_packet()
+        owned.handed_out(v.sec_header); owned.handed_out(v.user_data)
+        return [list(owned.handed_out(v.pack()))]
+    if k == 8: return _inspect(t, w)
+    if k == 9: t.tm_data = owned.give(o[1:], 1); return []
+    if k == 10:
+        cur = t.tm_data
+        if not isinstance(cur, bytearray):
+            cur = owned.give(cur, 1); t.tm_data = cur
+        cur.extend(bytes(o[1:])); owned.refresh(cur)
+        t.tm_data = cur
+        return []
+    if k == 11: t.seq_flags = _enum(SequenceFlags, o[1]); return []
+    if k == 22: t.pus_tm_sec_header.timestamp = bytes(o[1:]); return []
+    if k == 23: t.space_packet_header = _mk_sph(*o[1:8]); return []
+    if k == 24: t.pus_tm_sec_header = PusTmSecondaryHeader(o[1], o[2], bytes(o[6:]), o[3], o[4], o[5]); return []
+    if k == 25: return [[int(t == st["t0"]), int(st["t0"] == t)]]
+    if k == 26:
+        raw = t.pack(); u = PusTm.unpack(bytes(raw), len(t.pus_tm_sec_header.timestamp)); return [[int(u == t)]] + _fields(u)
+    if k == 27:
+        raw = t.pack(); tl = len(t.pus_tm_sec_header.timestamp)
+        buf = bytes(raw) if len(o) < 2 or o[1] % 2 == 0 else bytearray(raw)
+        if len(o) > 1 and o[1] >= 2:
+            st["w"] = Service17Tm.unpack(buf, tl); st["t"] = st["w"].pus_tm
+        else:
+            st["t"], st["w"] = PusTm.unpack(buf, tl), None
+        return []
+    if k == 30: _set_hdr(t, w, o[1], o[2], o[3] if len(o) > 3 else 0); return []
+    if k == 31: setattr(t.pus_tm_sec_header, _SEC_ATTR[o[1]], o[2]); return []
+    return _inspect(t, w)
+
+
+CLOSING = [[8], [7], [8], [0], [8]]
+
+
+def _hist(a):
+    owned = _Owned()
+    st = {"t0": _make(a[0], a[1], a[2], _Owned())[0]}
+    st["t"], st["w"] = _make(a[0], a[1], a[2], owned)
+    out = []
+    for o in list(a[3:]) + CLOSING:
+        try:
+            r = _hist_op(st, o, owned)
+        except BaseException as e:  # noqa
+            if isinstance(e, (KeyboardInterrupt, SystemExit, MemoryError, RuntimeError)):
+                raise
+            out.append([1, _canon(e)])
+            continue
+        out.append([0]); out.extend(r)
+    out.append([owned.changed(), owned.out_changed()])
+    return out
 
 
 def valid_args(a):
@@ -197,12 +346,435 @@ def streams(tier, rng):
             else: ops.append([k])
         cases.append((612, a + ops))
     yield "setter_histories_then_views", "exact", cases
+    yield from hardening_streams(tier, rng)
+
+
+# ---------------------------------------------------------------- oracle of the extended histories
+def tm_octets(S):
+    return pc.sph_layout(S["ver"], S["ptype"], S["shf"], S["apid"], S["flags"], S["count"], S["dlen"]) + \
+        [S["pusver"] * 16 + S["ref"], S["service"], S["subservice"], S["msgcnt"] // 256, S["msgcnt"] % 256,
+         S["dest"] // 256, S["dest"] % 256] + list(S["stamp"]) + list(S["src"])
+
+
+_RANGES = {"ver": 8, "ptype": 2, "shf": 2, "apid": 2048, "flags": 4, "count": 16384, "dlen": 65536, "pusver": 16, "ref": 16,
+           "service": 256, "subservice": 256, "msgcnt": 65536, "dest": 65536}
+_HDR_KEYS = ["ver", "ptype", "shf", "apid", "flags", "count", "dlen"]
+_SEC_KEYS = ["pusver", "ref", "service", "subservice", "msgcnt", "dest"]
+
+
+def _in_range(S):
+    return all(0 <= S[k] < hi for k, hi in _RANGES.items())
+
+
+def _initial_state(a):
+    path, service, subservice, apid, count, msgcnt, ref, dest, version, kind, ptype, shf, flags, dlen = a[0]
+    stamp, src = list(a[1]), list(a[2])
+    S = {"ver": version, "ptype": 0, "shf": 1, "apid": apid, "flags": 3, "count": count, "dlen": 8 + len(stamp) + len(src),
+         "pusver": 2, "ref": ref, "service": service, "subservice": subservice, "msgcnt": msgcnt, "dest": dest,
+         "stamp": stamp, "src": src, "crc": None}
+    if path == 2:
+        S.update({"ptype": ptype, "shf": shf, "flags": flags, "dlen": dlen})
+        if ptype == 1:
+            return None
+    elif path == 4:
+        S.update({"service": 17, "msgcnt": 0})
+    elif path == 6:
+        S.update({"ver": 0, "apid": 0, "count": 0, "msgcnt": 0, "ref": 0, "dest": 0, "src": [], "dlen": 8 + len(stamp)})
+    elif path == 8:
+        S.update({"ver": 0, "count": 0, "msgcnt": 0, "ref": 0, "dest": 0, "src": [], "dlen": 8 + len(stamp), "service": 17})
+    elif path == 7:
+        S.update({"ver": 0, "apid": 0, "count": 0, "msgcnt": 0, "ref": 0, "dest": 0, "src": [], "dlen": 15, "service": 0,
+                  "subservice": 0, "stamp": [0x40, 0, 0, 0, 0, 0, 0]})
+    if not (0 <= S["apid"] < 2048 and 0 <= S["count"] < 16384 and 0 <= S["dlen"] < 65536 and 0 <= S["service"] < 256
+            and 0 <= S["subservice"] < 256 and 0 <= S["msgcnt"] < 65536):
+        return None
+    if path in (3, 5):
+        if not _in_range(S):
+            return None
+        S["crc"] = _crc2(tm_octets(S)); S["fresh"] = True
+    return S
+
+
+def _hist_oracle(a, ires):
+    """on a live telemetry object: pack() = the standard's octets for the current field values, the generic
+    space-packet view = the same octets, getters show the current values, reported length = packed length,
+    caller-owned buffers untouched"""
+    S = _initial_state(a)
+    if ires[0][0] == 1:
+        if S is not None and _in_range(S):
+            return ("C03/PusTm/valid-refused", "valid construction (path %d) raised %s: %s" % (a[0][0], ires, a[0]))
+        return None
+    if S is None:
+        return None
+    S0 = dict(S)
+    obs, pos = ires[1:], 0
+    ops = [list(o) for o in a[3:]] + CLOSING
+    for n, o in enumerate(ops):
+        where = "operation %d %s of %s (path %d, buffer kind %d)" % (n, o[:8], [x[:6] for x in ops], a[0][0], a[0][9])
+        if pos >= len(obs) - 1:
+            return ("C03/PusTm.history/observations", "observation list too short at " + where)
+        st = obs[pos]; pos += 1
+        ok = st[0] == 0
+        k = o[0]
+        good = _in_range(S)
+        body = tm_octets(S) if good else None
+        if k in (0, 1, 7):
+            out = None
+            if ok:
+                out = obs[pos]; pos += 1
+            if not good:
+                if ok:
+                    S["crc"] = "?"
+                continue
+            if not ok:
+                return ("C11/PusTm.history/raises", "valid state, yet %s raised %s; fields %s" % (where, st, {x: S[x] for x in _RANGES}))
+            fresh = _crc2(body)
+            if k == 1:
+                if S["crc"] == "?":
+                    continue
+                # documented: the CRC "previously calculated" is reused; a library that refreshes its cache more
+                # often than the model is not wrong, so the fresh CRC is acceptable too
+                cands = [fresh] if S["crc"] is None else [S["crc"], fresh]
+                if out[:-2] != body or out[-2:] not in cands:
+                    return ("C03/PusTm.pack/recalc-false", "%s: pack(recalc_crc=False) gives %s ... %s, expected the current fields followed by the CRC cached by the last pack/calc_crc %s" % (where, out[:12], out[-6:], cands))
+                S["crc"] = out[-2:]
+                S["fresh"] = S["crc"] == fresh
+                continue
+            S["crc"] = fresh; S["fresh"] = True
+            if k == 0 and out != body + fresh:
+                return ("C11/PusTm.history/pack-differs-from-fresh", "%s: pack() gives %s, the current field values %s prescribe %s" % (
+                    where, out[:28], {x: S[x] for x in _RANGES}, (body + fresh)[:28]))
+            if k == 7 and S["shf"] == 1 and out != body + fresh:
+                return ("C03/PusTm.to_space_packet/stale-octets", "%s: the space-packet view packs %s ... %s, pack() must give %s ... %s" % (
+                    where, out[:14], out[-6:], body[:14], (body + fresh)[-6:]))
+            continue
+        if k == 2:
+            if ok and good: S["crc"] = _crc2(body); S["fresh"] = True
+            elif ok: S["crc"] = "?"
+            elif good:
+                return ("C11/PusTm.history/raises", "valid state, yet calc_crc raised: " + where)
+            continue
+        if k in (3, 4, 5, 6, 9, 10, 11, 22, 23, 24, 30, 31):
+            S["fresh"] = False
+        if k in (3, 9, 10):
+            if not ok:
+                return ("C11/PusTm.tm_data/raises", where + " raised %s" % st)
+            S["src"] = (S["src"] if k == 10 else []) + list(o[1:])
+            S["dlen"] = 8 + len(S["stamp"]) + len(S["src"])
+            continue
+        if k in (5, 11, 22, 30, 31):
+            if not ok:
+                return ("C11/PusTm.setter/raises", where + " raised %s" % st)
+            if k == 5: S["apid"] = o[1]
+            elif k == 11: S["flags"] = o[1]
+            elif k == 22: S["stamp"] = list(o[1:])
+            elif k == 30: S[_HDR_KEYS[o[1]]] = o[2]
+            else: S[_SEC_KEYS[o[1]]] = o[2]
+            continue
+        if k == 23:
+            if ok:
+                ptype, apid, count, dlen, shf, flags, version = o[1:8]
+                S.update({"ver": version, "ptype": ptype, "shf": shf, "apid": apid, "flags": flags, "count": count, "dlen": dlen})
+            continue
+        if k == 24:
+            if ok:
+                S.update({"pusver": 2, "service": o[1], "subservice": o[2], "msgcnt": o[3], "dest": o[4], "ref": o[5], "stamp": list(o[6:])})
+            continue
+        if k == 25:
+            if ok:
+                out = obs[pos]; pos += 1
+                if good and _in_range(S0):
+                    e = int(tm_octets(S)[:13] == tm_octets(S0)[:13] and S["stamp"] == S0["stamp"] and S["src"] == S0["src"])
+                    if out != [e, e]:
+                        return ("C03/PusTm.__eq__", "%s: == with an untouched twin gives %s, the field values say %d" % (where, out, e))
+            continue
+        if k in (26, 27):
+            consistent = good and S["dlen"] == 8 + len(S["stamp"]) + len(S["src"]) and S["pusver"] == 2
+            if not ok:
+                if consistent:
+                    return ("C03/PusTm.unpack/own-output-refused", "%s: the object's own pack() output is refused: %s" % (where, st))
+                S["crc"] = "?"
+                continue
+            if not consistent:
+                return None
+            S["crc"] = _crc2(body); S["fresh"] = True
+            if k == 26:
+                out = obs[pos:pos + 7]; pos += 7
+                exp = [[1], [S[x] for x in _HDR_KEYS], [S[x] for x in _SEC_KEYS], S["stamp"], S["src"], [1] + S["crc"], [S["dlen"] + 7]]
+                if out != exp:
+                    return ("C03/PusTm.unpack/fields" if out[0] == [1] else "C03/PusTm.unpack/not-equal",
+                            "%s: decoding the object's own pack() gives %s, expected %s" % (where, str(out)[:200], str(exp)[:200]))
+            continue
+        if not ok:
+            return ("C03/PusTm.history/getter-raises", where + " raised %s" % st)
+        out = obs[pos:pos + 9]; pos += 9
+        exp = [[S[x] for x in _HDR_KEYS], [S[x] for x in _SEC_KEYS], S["stamp"], S["src"],
+               [1] + S["crc"] if S.get("fresh") and S["crc"] not in (None, "?") else out[4], [S["dlen"] + 7],
+               [S["service"], S["subservice"], S["apid"], S["count"], S["ver"],
+                S["ptype"] * 4096 + S["shf"] * 2048 + S["apid"] if good else out[6][5],
+                S["flags"] * 16384 + S["count"] if good else out[6][6], S["ptype"], S["shf"], S["flags"]],
+               S["stamp"], S["src"]]
+        names = ["primary header", "secondary header", "timestamp", "tm_data", "crc16", "packet_len", "getters", "timestamp getter", "source_data getter"]
+        for nm, x, y in zip(names, out, exp):
+            if x != y:
+                return ("C11/PusTm.history/state-differs", "%s: %s reads %s, the operations so far prescribe %s" % (where, nm, x[:24], y[:24]))
+    if obs[-1][0] != 0:
+        return ("C11/PusTm/caller-buffer-modified", "%d bytearray(s) owned by the caller were changed by the library during %s" % (obs[-1][0], [x[:6] for x in ops]))
+    if obs[-1][1] != 0:
+        return ("C11/PusTm/returned-octets-changed-later", "%d octet string(s) returned by pack() / to_space_packet() changed when the object was used again: %s" % (obs[-1][1], [x[:6] for x in ops]))
+    return None
+
+
+# ---------------------------------------------------------------- generators of the hardening round
+HDR_ROUTES = {1: 6, 2: 6, 3: 9, 4: 9, 5: 6, 6: 3}
+
+
+def _hist_params(rng, path=None, n=None, tl=None, kind=None, consistent=True):
+    b = pc.rand_tm_args(rng, 12)
+    service, subservice, apid, count, msgcnt, ref, dest, version = b[0]
+    if n is None:
+        n = len(b[2]) if rng.random() < 0.9 else rng.choice([250, 255, 256, 506, 511, 512, 513, 520, 1024])
+    if tl is None:
+        tl = len(b[1]) if rng.random() < 0.95 else rng.choice([255, 256, 512])
+    src = pc.rbytes(rng, n) if rng.random() < 0.8 else rng.choice(PATTERNS)(n)
+    stamp = pc.rbytes(rng, tl) if rng.random() < 0.8 else rng.choice(PATTERNS)(tl)
+    path = rng.choice([0, 0, 0, 2, 2, 2, 3, 3, 3, 4, 4, 5, 5, 6, 7, 8]) if path is None else path
+    kind = rng.randrange(2) if kind is None else kind
+    ptype, shf, dlen = 0, 1, 8 + tl + n
+    if path == 2 and not consistent:
+        ptype, shf, dlen = rng.choice([0, 0, 0, 1]), rng.choice([1, 1, 0]), rng.choice([dlen, dlen, 0, dlen - 1, dlen + 1, 65535])
+    return [[path, service, subservice, apid, count, msgcnt, ref, dest, version, kind, ptype, shf, rng.choice([3, 3, 0, 1, 2]), dlen],
+            stamp, src]
+
+
+def _rand_setter(rng, cur_len, wild=False):
+    r = rng.random()
+    if r < 0.45:
+        f = rng.choice([1, 2, 2, 3, 3, 4, 5, 5, 6])
+        hi = _RANGES[_HDR_KEYS[f]]
+        v = pc.pick(rng, [0, 1, hi - 1, hi // 2], hi)
+        if f == 2 and rng.random() < 0.7: v = 1
+        if f == 6 and rng.random() < 0.7: v = cur_len
+        if wild: v = rng.choice([-1, hi, hi + 1, 2 ** 16, 2 ** 32])
+        return [30, f, v, rng.randrange(HDR_ROUTES[f])]
+    if r < 0.85:
+        f = rng.choice([0, 1, 2, 3, 4, 4, 5, 5])
+        hi = _RANGES[_SEC_KEYS[f]]
+        v = pc.pick(rng, [0, 1, hi - 1, hi // 2], hi)
+        if f == 0 and rng.random() < 0.8: v = 2
+        if wild: v = rng.choice([-1, hi, hi + 1, 2 ** 16])
+        return [31, f, v]
+    if r < 0.90:
+        return [rng.choice([5, 11]), rng.randrange(4)]
+    if r < 0.95:
+        return [24, pc.pick(rng, pc.BND8, 256) if not wild else 256, pc.pick(rng, pc.BND8, 256), pc.pick(rng, pc.BND16, 65536),
+                pc.pick(rng, pc.BND16, 65536), rng.randrange(16)] + pc.rbytes(rng, rng.choice([0, 7, 7, 2]))
+    return [23, rng.choice([0, 0, 1]), pc.pick(rng, pc.BND11, 2048) if not wild else 2048, pc.pick(rng, pc.BND14, 16384),
+            rng.choice([cur_len, cur_len, rng.randrange(65536)]), rng.choice([1, 1, 0]), rng.randrange(4), rng.randrange(8)]
+
+
+def _rand_ops(rng, tl, n0, maxops=10, wild_p=0.0):
+    ops, cur = [], n0
+    for _ in range(rng.randrange(0, maxops + 1)):
+        r = rng.random()
+        if r < 0.30:
+            ops.append([rng.choice([0, 0, 1, 2, 7, 7, 7, 8, 8])] + [rng.randrange(2)])
+        elif r < 0.36:
+            ops.append([rng.choice([25, 26, 27, 27]), rng.randrange(4)])
+        elif r < 0.52:
+            k = rng.choice([3, 9, 9, 10, 10])
+            n = rng.randrange(0, 10) if rng.random() < 0.9 else rng.choice([256, 500, 512, 513])
+            d = pc.rbytes(rng, n) if rng.random() < 0.8 else rng.choice(PATTERNS)(n)
+            cur = cur + n if k == 10 else n
+            ops.append([k] + d)
+            if rng.random() < 0.15:
+                ops.append([k] + d)
+                if k == 10: cur += n
+        elif r < 0.57:
+            tl = rng.choice([0, 7, 7, tl, rng.randrange(12)])
+            ops.append([22] + pc.rbytes(rng, tl))
+        else:
+            o = _rand_setter(rng, 8 + tl + cur, wild=rng.random() < wild_p)
+            if o[0] == 24: tl = len(o) - 6
+            ops.append(o)
+            if rng.random() < 0.15:
+                ops.append(list(o))
+    return ops
+
+
+def _all_mutations(rng, tl, cur_len):
+    out = [[3] + pc.rbytes(rng, 3), [9] + pc.rbytes(rng, 3), [10] + pc.rbytes(rng, 2), [3], [9],
+           [5, pc.pick(rng, pc.BND11, 2048)], [11, rng.randrange(4)], [22] + pc.rbytes(rng, tl), [22] + pc.rbytes(rng, rng.choice([0, tl + 1]))]
+    for f, nr in HDR_ROUTES.items():
+        hi = _RANGES[_HDR_KEYS[f]]
+        for route in range(nr):
+            v = rng.randrange(hi) if f != 6 else 8 + tl + cur_len + rng.choice([0, 0, 1])
+            out.append([30, f, v, route])
+    for f in range(6):
+        out.append([31, f, rng.randrange(_RANGES[_SEC_KEYS[f]]) if f else rng.choice([2, 2, 1])])
+    out.append([24, rng.randrange(256), rng.randrange(256), rng.randrange(65536), rng.randrange(65536), rng.randrange(16)] + pc.rbytes(rng, tl))
+    out.append([23, 0, rng.randrange(2048), rng.randrange(16384), 8 + tl + cur_len, 1, rng.randrange(4), rng.randrange(8)])
+    out.append([23, 0, 2048, 1, 8 + tl + cur_len, 1, 3, 0])     # refused: the object must be unchanged afterwards
+    out.append([24, 256, 1, 1, 1, 1] + pc.rbytes(rng, tl))
+    out.append([24, 1, 1, 65536, 1, 1] + pc.rbytes(rng, tl))
+    return out
+
+
+def _directed(rng, tl, d):
+    n = 8 + tl + len(d)
+    return [
+        [[3] + d, [30, 6, n + 3, 0], [3] + d],
+        [[9] + d, [30, 6, 0, 1], [10]],
+        [[9] + d, [7], [10, 1], [7], [10, 2], [0]],
+        [[3] + d, [0], [3] + d, [1]],
+        [[0], [30, 5, 1, 1], [30, 5, 1, 4], [1], [7]],
+        [[7], [7], [7], [0, 1]],
+        [[2], [31, 4, 513], [7], [31, 4, 513], [7]],
+        [[0], [31, 5, 258], [7], [31, 4, 77], [7], [30, 5, 101, 0], [7]],     # the next packet of a stream: counters bumped
+        [[27, 1], [7], [8], [27, 2], [7], [10, 5], [7], [27, 3], [31, 5, 9], [7]],
+        [[22] + pc.rbytes(rng, tl), [7], [22] + pc.rbytes(rng, tl + 1), [3] + d, [7]],
+        [[3] + d, [22] + pc.rbytes(rng, tl + 2), [9] + d, [8], [0, 1], [22], [3] + d, [7]],   # data, timestamp, data again
+        [[23, 0, 2048, 0, n, 1, 3, 0], [8], [0]],
+    ]
+
+
+def _layout_fast(service, subservice, apid, seq, msgcnt, ref, dest, version, stamp, src):
+    body = pc.sph_layout(version, 0, 1, apid, 3, seq, 7 + len(stamp) + len(src) + 1) + \
+        [32 + ref, service, subservice, msgcnt // 256, msgcnt % 256, dest // 256, dest % 256] + list(stamp) + list(src)
+    return body + _crc2(body)
+
+
+def _force_crc(fields, stamp, src, target):
+    src = list(src)
+    body = _layout_fast(*fields, stamp, src)[:-4]
+    s = fcrc(body)
+    for x in range(65536):
+        if fcrc([x >> 8, x & 255], s) == target:
+            return src[:-2] + [x >> 8, x & 255]
+    raise RuntimeError("no preimage")
+
+
+def hardening_streams(tier, rng):
+    big = tier == "thorough"
+    # A. size sweeps: source data length, and timestamp length (both carry lengths)
+    cases = []
+    top = 4200 if big else 1100
+    for n in range(0, top + 1):
+        f = pc.rand_tm_args(rng, 1)[0]
+        tl = rng.choice([0, 7, 7, 7, 8, 16])
+        a = [f, pc.rbytes(rng, tl), pc.rbytes(rng, n) if n % 5 else rng.choice(PATTERNS)(n)]
+        cases.append((605, a))
+        if n in NEAR_256 or n % 64 in (0, 1, 63) or big:
+            pkt = _layout_fast(*a[0], a[1], a[2])
+            cases.append((602, [pkt + pc.rbytes(rng, rng.choice([0, 1, 2, 255, 1000])), [tl]]))
+            cases.append((603, [pkt, [tl]])); cases.append((611, [pkt, [tl]]))
+            cases.append((604, a))
+    for tl in range(0, (2100 if big else 1100) + 1):
+        f = pc.rand_tm_args(rng, 1)[0]
+        a = [f, pc.rbytes(rng, tl) if tl % 5 else rng.choice(PATTERNS)(tl), pc.rbytes(rng, rng.choice([0, 1, 2, 9]))]
+        cases.append((605, a))
+        if tl in NEAR_256 or tl % 64 == 0:
+            pkt = _layout_fast(*a[0], a[1], a[2])
+            cases.append((602, [pkt + pc.rbytes(rng, 3), [tl]])); cases.append((602, [pkt, [tl + 1]])); cases.append((602, [pkt, [max(tl - 1, 0)]]))
+            cases.append((604, a))
+    for (tl, n) in [(7, 4096), (7, 4089), (4096, 7), (7, 65520), (65527, 0)] + \
+            ([(7, 8192), (7, 32768), (16384, 16384), (1, 65526), (0, 65527), (7, 65519), (32768, 32759)] if big else []):
+        a = [[3, 25, 0x7FF, 0x3FFF, 0xFFFF, 15, 0xFFFF, 7], pc.rbytes(rng, tl), pc.rbytes(rng, n)]
+        cases.append((605, a))
+        if big or n != 0:
+            cases.append((604, a)); cases.append((603, [_layout_fast(*a[0], a[1], a[2]), [tl]]))
+    if big:                                                      # coarse steps up to the field's limit
+        for n in range(4200, 65520, 251):
+            tl = rng.choice([0, 7, 7, 16])
+            cases.append((605, [pc.rand_tm_args(rng, 1)[0], pc.rbytes(rng, tl), pc.rbytes(rng, n - tl)]))
+            if n % 4 == 0:
+                cases.append((605, [pc.rand_tm_args(rng, 1)[0], pc.rbytes(rng, n - 9), pc.rbytes(rng, 9)]))
+    pkt = _layout_fast(3, 25, 1, 1, 1, 0, 0, 0, pc.rbytes(rng, 7), pc.rbytes(rng, 20))
+    cases.append((602, [pkt + pc.rbytes(rng, 70000), [7]])); cases.append((603, [pkt + pkt * 40, [7]]))
+    for (tl, n) in ((7, 65521), (0, 65528), (65528, 0), (32768, 32760)):
+        cases.append((601, [[3, 25, 1, 1, 1, 0, 0, 0], [0] * tl, [0] * n])); cases.append((604, [[3, 25, 1, 1, 1, 0, 0, 0], [0] * tl, [0] * n]))
+    yield "size_sweep_pack_unpack", "exact", cases
+    # B. boundary triples and CRC values with special octets
+    cases = []
+    for ap, sq, mc, de in itertools.product([0, 2047], [0, 16383], [0, 255, 256, 65535], [0, 65535]):
+        for (tl, n) in ((0, 0), (0, 248), (7, 241), (7, 242), (8, 240), (7, 497), (16, 489), (255, 0), (248, 0)):
+            for ref, ver, sv in ((0, 0, 0), (15, 7, 255)):
+                a = [[sv, 255 - sv, ap, sq, mc, ref, de, ver], rng.choice(PATTERNS)(tl), rng.choice(PATTERNS)(n)]
+                cases.append((605, a)); cases.append((604, a))
+    for (tl, n) in ([(7, 65520)] if not big else [(7, 65520), (65527, 0), (0, 65527), (32767, 32760)]):
+        for ap, sq, mc in (((2047, 16383, 65535),) if not big else ((2047, 16383, 65535), (0, 0, 0))):
+            a = [[255, 255, ap, sq, mc, 15, 65535, 7], [0xFF] * tl, [0xFF] * n]
+            cases.append((605, a)); cases.append((604, a))
+    for target in (0x0000, 0xFFFF, 0x00FF, 0xFF00, 0x0001, 0x0100, 0x8000, 0x0080, 0x2000, 0x0020):
+        for n in (2, 9, 250):
+            a = pc.rand_tm_args(rng, 4, rng.choice([0, 7]))
+            a[2] = _force_crc(a[0], a[1], pc.rbytes(rng, n), target)
+            cases.append((605, a)); cases.append((604, a))
+            cases.append((620, [[3] + a[0] + [1, 0, 1, 3, 0], a[1], a[2], [7], [8], [1]]))
+    yield "triple_boundaries_and_crc_patterns", "exact", cases
+    # C. every mutation route x every way the CRC cache can have been filled x every view afterwards
+    cases = []
+    primes = [[], [[0]], [[2]], [[7]], [[0], [1]], [[7], [7]], [[0, 1]]]
+    for rep in range(3 if big else 1):
+        for path, kind in ((0, 1), (2, 0), (3, 1), (4, 0), (5, 1)) + (((0, 0), (3, 0)) if big else ()):
+            for pr in primes:
+                base = _hist_params(rng, path=path, kind=kind, n=rng.randrange(0, 9), tl=rng.choice([0, 7, 7, 3]))
+                muts = _all_mutations(rng, len(base[1]), len(base[2]))
+                for m in muts + [None]:
+                    for v in ([7], [0, 1], [1], [26]):           # [0, 1]: pack through the Service17Tm wrapper where there is one
+                        ops = [list(x) for x in pr] + ([list(m)] if m is not None else []) + [v, [8]]
+                        cases.append((620, base + ops))
+                for m in muts:
+                    cases.append((620, base + [list(x) for x in pr] + [list(m), list(m), [7], [8]]))
+                for seq in _directed(rng, len(base[1]), pc.rbytes(rng, rng.choice([0, 1, 5]))):
+                    cases.append((620, base + [list(x) for x in pr] + seq))
+    yield "live_object_every_route_then_views", "exact", cases
+    # D. random histories up to 10 operations
+    cases = []
+    for _ in range(12000 if big else 1500):
+        base = _hist_params(rng, consistent=rng.random() < 0.85)
+        cases.append((620, base + _rand_ops(rng, len(base[1]), len(base[2]), 10, wild_p=0.08)))
+    yield "histories_live_object", "exact", cases
+    # E. alternate constructors on their own
+    cases = []
+    for _ in range(3000 if big else 600):
+        base = _hist_params(rng, consistent=rng.random() < 0.6)
+        if rng.random() < 0.1: base[0][3] = rng.choice([-1, 2048, 2 ** 16])
+        if rng.random() < 0.1: base[0][4] = rng.choice([-1, 16384])
+        if rng.random() < 0.1: base[0][rng.choice([1, 2])] = rng.choice([-1, 256])
+        if rng.random() < 0.05: base[0][5] = rng.choice([-1, 65536])
+        if rng.random() < 0.05: base[0][13] = rng.choice([-1, 65536])
+        cases.append((620, base))
+    for path, kind in ([(0, 1), (5, 1)] if not big else [(p_, k_) for p_ in (0, 2, 3, 4, 5) for k_ in (0, 1)]):
+        cases.append((620, _hist_params(rng, path=path, kind=kind, n=65520, tl=7)))
+    yield "alternate_construction_paths", "exact", cases
+    # F. size sweep of the setters on a live object
+    cases = []
+    sizes = sorted(set(NEAR_256) | {0, 1, 2, 63, 64, 65, 127, 128, 129, 255, 1100} | ({2048, 4095, 4096, 4097} if big else set()))
+    for i, n in enumerate(sizes):
+        for k in ((3, 9, 10, 22) if big or n < 300 else ((3, 9, 10, 22)[i % 4],)):
+            base = _hist_params(rng, path=rng.choice([0, 3, 4]), n=rng.randrange(0, 4), tl=rng.choice([0, 7]))
+            d = pc.rbytes(rng, n)
+            cases.append((620, base + [[7], [k] + d, [7], [8], [0], [10, 1, 2], [7], [8]]))
+    for n in sizes:
+        if n >= 250 and (big or abs(((n + 128) % 256) - 128) <= 2 or n == 1100):
+            cases.append((620, _hist_params(rng, path=rng.choice([3, 5]), kind=1, n=n, tl=rng.choice([0, 7])) + [[8], [7], [8]]))
+            cases.append((620, _hist_params(rng, path=rng.choice([0, 2, 4]), kind=1, n=rng.choice([0, n]), tl=rng.choice([7, n])) + [[7], [8], [7]]))
+    for n in ((65510, 65518) if big else (65518,)):
+        base = _hist_params(rng, path=0, kind=1, n=2, tl=7)
+        cases.append((620, base + [[9] + [0xFF] * n, [7], [10, 1, 2], [8]]))
+    yield "live_object_size_sweep", "exact", cases
+
+
+_SPEC_SIZES = set(NEAR_256) | {4096, 65520}
 
 
 def oracle_spec(case, ires):
     op, a = case
     if op in (601, 604, 605) and valid_args(a):
-        return [(650, a[:3])]
+        n = len(a[1]) + len(a[2])
+        if n <= 300 or len(a[2]) in _SPEC_SIZES or len(a[1]) in _SPEC_SIZES:
+            return [(650, a[:3])]
     return []
 
 
@@ -221,7 +793,7 @@ def oracle(case, ires, sres):
             return None
         if err:
             return ("C03/PusTm/valid-refused", "valid telemetry raised %s: %s" % (ires, a[0]))
-        exp = pc.tm_layout(service, subservice, apid, seq, msgcnt, ref, dest, version, a[1], a[2])
+        exp = _layout_fast(service, subservice, apid, seq, msgcnt, ref, dest, version, a[1], a[2])
         hdr = [version, 0, 1, apid, 3, seq, 7 + len(a[1]) + len(a[2]) + 1]
         sec = [2, ref, service, subservice, msgcnt, dest]
         if op == 600:
@@ -246,7 +818,7 @@ def oracle(case, ires, sres):
     if op == 610:
         apid, subservice, ssc, version, ref, dest = a[0]
         if (0 <= apid < 2048 and 0 <= subservice < 256 and 0 <= ssc < 16384 and 0 <= version < 8 and 0 <= ref < 16 and 0 <= dest < 65536):
-            exp = pc.tm_layout(17, subservice, apid, ssc, 0, ref, dest, version, a[1], a[2])
+            exp = _layout_fast(17, subservice, apid, ssc, 0, ref, dest, version, a[1], a[2])
             if err or ires[1] != exp:
                 return ("C03/Service17Tm.pack/layout", "%s -> %s" % (a, ires))
         return None
@@ -260,7 +832,7 @@ def oracle(case, ires, sres):
         if n < 6 + 7 + tl + 2:
             return ("C03/PusTm.unpack/small-declared-length",
                     "declared packet length %d < %d (header + %d-octet timestamp + CRC) accepted: %s" % (n, 15 + tl, tl, b[:24]))
-        if len(b) < n or pc.crc16(b[:n]) != 0:
+        if len(b) < n or fcrc(b[:n]) != 0:
             return ("C03/PusTm.unpack/accepts-invalid", "accepted although short or CRC wrong: %s" % (b[:20],))
         if ires[3] != b[13:13 + tl] or ires[4] != b[13 + tl:n - 2] or ires[6] != [n] or \
                 ires[2] != [2, b[6] & 15, b[7], b[8], b[9] * 256 + b[10], b[11] * 256 + b[12]]:
@@ -276,10 +848,12 @@ def oracle(case, ires, sres):
     if op == 607:
         service, subservice, apid, seq, msgcnt, ref, dest, version = a[0]
         if valid_args(a) and valid_args([a[0], a[1], a[3]]):
-            exp = pc.tm_layout(service, subservice, apid, seq, msgcnt, ref, dest, version, a[1], a[3])
+            exp = _layout_fast(service, subservice, apid, seq, msgcnt, ref, dest, version, a[1], a[3])
             if err or ires[1] != exp or ires[2] != [len(exp)]:
                 return ("C11/PusTm.tm_data/stale-length", "after tm_data := %d octets: %s, fresh TM packs %d octets" % (len(a[3]), str(ires)[:120], len(exp)))
         return None
+    if op == 620:
+        return _hist_oracle(a, ires)
     if op == 612:
         service, subservice, apid, seq, msgcnt, ref, dest, version = a[0]
         src = list(a[2])
@@ -288,7 +862,7 @@ def oracle(case, ires, sres):
             elif o[0] == 5: apid = o[1]
         f = [[service, subservice, apid, seq, msgcnt, ref, dest, version], a[1], src]
         if valid_args(a) and valid_args(f):
-            exp = pc.tm_layout(*f[0], f[1], f[2])
+            exp = _layout_fast(*f[0], f[1], f[2])
             if err:
                 return ("C11/PusTm.history/raises", "valid history raised %s" % (ires,))
             if ires[2] != exp or ires[3] != [len(exp)]:
